@@ -389,3 +389,152 @@ def mon_c17(case_line, acts):
         prev = cur
         prev_gen = st.get('gen')
     return out
+
+
+# ---------------------------------------------------------------- C02 / C03: replay
+def _nodup(raw):
+    return bytes([raw[0] & ~8]) + raw[1:]
+
+
+def _ret_bytes(st):
+    """pid -> bytes (DUP cleared) of the retained entries of a snapshot"""
+    out = {}
+    for x in list_field((st or {}).get('ret', '[]')):
+        f = x.split(':')
+        if len(f) >= 5 and f[4] not in ('', '!'):
+            out[int(f[0])] = _nodup(bytes.fromhex(f[4]))
+    return out
+
+
+def mon_c02(case_line, acts):
+    """every QoS>0 PUBLISH on the wire is the byte image (modulo DUP) of a retained packet; it is written at most
+    once per connection; without DUP only on the connection that accepted it; never after it left the retained list;
+    complete transmissions follow the order of the retained list"""
+    out = []
+    fl = Flow(acts)
+    seen_on_conn = {}     # (conn, pid, bytes) -> count
+    first_conn = {}       # (pid, bytes) -> connection of first transmission
+    per_action_tx = {}
+    for ev in fl.events:
+        if ev[0] == 'tx':
+            per_action_tx.setdefault(ev[3], []).append((ev[1], ev[2]))
+    for i, a in enumerate(acts):
+        before = _ret_bytes(acts[i - 1].state) if i > 0 else {}
+        after = _ret_bytes(a.state)
+        order_before = [int(x.split(':')[0]) for x in list_field((acts[i - 1].state or {}).get('ret', '[]'))] if i > 0 else []
+        last_pos = -1
+        for conn, p in per_action_tx.get(i, []):
+            if p['type'] != 'PUBLISH' or p.get('qos', 0) == 0:
+                continue
+            pid = p['pid']
+            img = _nodup(p['raw'])
+            if before.get(pid) != img and after.get(pid) != img:
+                out.append(V('PUBLISH id %d written at action #%d is not the image of a retained packet: %s'
+                             % (pid, i, p['raw'].hex()[:60])))
+                continue
+            key = (conn, pid, img)
+            seen_on_conn[key] = seen_on_conn.get(key, 0) + 1
+            if seen_on_conn[key] > 1:
+                out.append(V('PUBLISH id %d written twice on one connection (action #%d)' % (pid, i)))
+            fc = first_conn.setdefault((pid, img), conn)
+            if p['dup'] is False and fc != conn:
+                out.append(V('PUBLISH id %d retransmitted on a later connection without DUP (action #%d)' % (pid, i)))
+            if pid in order_before:
+                pos = order_before.index(pid)
+                if pos < last_pos:
+                    out.append(V('retained PUBLISH packets written out of acceptance order at action #%d' % i))
+                last_pos = max(last_pos, pos)
+    return out
+
+
+def mon_c03(case_line, acts):
+    """PUBREL only after a successful PUBREC for that identifier; after the PUBREC was consumed the PUBLISH is not
+    written again; replayed PUBRELs follow the order of the release list"""
+    out = []
+    fl = Flow(acts)
+    per_action = {}
+    for ev in fl.events:
+        if ev[0] == 'tx':
+            per_action.setdefault(ev[3], []).append(('tx', ev[2]))
+        elif ev[0] == 'rx':
+            per_action.setdefault(ev[4], []).append(('rx', ev[2], ev[3]))
+    sent_q2 = set()       # QoS 2 identifiers whose PUBLISH has been written completely
+    pubrec_seen = set()   # ... and for which a successful PUBREC has been consumed since
+    for i, a in enumerate(acts):
+        prev = acts[i - 1].state if i > 0 else {}
+        rel_before = [int(x.split(':')[0]) for x in list_field((prev or {}).get('rel', '[]'))]
+        owed = set(rel_before)
+        released = set()
+        last = -1
+        if a.code == 0 and a.result == 'ok connected':
+            sent_q2.clear()
+            pubrec_seen.clear()
+        for ev in per_action.get(i, []):
+            if ev[0] == 'rx':
+                first, body = ev[1], ev[2]
+                if first >> 4 == 5 and len(body) >= 2 and (len(body) < 3 or body[2] < 0x80):
+                    pid = (body[0] << 8) | body[1]
+                    owed.add(pid)
+                    released.add(pid)
+                    if pid in sent_q2:
+                        pubrec_seen.add(pid)
+                if first >> 4 == 7 and len(body) >= 2:
+                    pid = (body[0] << 8) | body[1]
+                    pubrec_seen.discard(pid)
+                    sent_q2.discard(pid)
+                continue
+            p = ev[1]
+            if p['type'] == 'PUBLISH' and p.get('qos') == 2:
+                if not p['dup']:
+                    pubrec_seen.discard(p['pid'])      # a new exchange reusing the identifier
+                elif p['pid'] in pubrec_seen:
+                    out.append(V('QoS 2 PUBLISH %d retransmitted at action #%d although its PUBREC had been received'
+                                 % (p['pid'], i)))
+                sent_q2.add(p['pid'])
+            if p['type'] == 'PUBREL':
+                pid = p['pid']
+                if pid not in owed:
+                    out.append(V('PUBREL %d written at action #%d without a successful PUBREC (release list before: %s)'
+                                 % (pid, i, rel_before)))
+                if pid in rel_before:
+                    pos = rel_before.index(pid)
+                    if pos < last:
+                        out.append(V('PUBRELs written out of PUBREC order at action #%d: release list %s' % (i, rel_before)))
+                    last = max(last, pos)
+            if p['type'] == 'PUBLISH' and p.get('qos') == 2 and (p['pid'] in rel_before or p['pid'] in released):
+                if p['pid'] not in _ret_bytes(a.state) and p['pid'] not in _ret_bytes(prev):
+                    out.append(V('QoS 2 PUBLISH %d written again after its PUBREC (action #%d)' % (p['pid'], i)))
+    return out
+
+
+def mon_c05(case_line, acts):
+    """CONNECT clean-start mirrors 'no CONNACK has succeeded yet'; a fresh session invalidates every earlier
+    handle and empties the in-flight lists; a resumed one keeps them"""
+    out = []
+    succeeded = False
+    for i, a in enumerate(acts):
+        if a.code != 0:
+            continue
+        wire = b''.join(bytes.fromhex(e[3]) for e in a.events if e[0] == 'w' and e[2])
+        pk, tail, problems = mqttspec.parse_client_stream(wire, strict_flags=False)
+        if pk and pk[0]['type'] == 'CONNECT':
+            if pk[0]['clean_start'] != (not succeeded):
+                out.append(V('CONNECT at action #%d has clean_start=%s although %s CONNACK succeeded before'
+                             % (i, pk[0]['clean_start'], 'a' if succeeded else 'no')))
+        st = a.state or {}
+        prev = acts[i - 1].state if i > 0 else {}
+        if a.result == 'ok connected':
+            succeeded = True
+            nprev = len(list_field((prev or {}).get('h', '[]')))
+            hs = list_field(st.get('h', '[]'))
+            if any(h != 'I' for h in hs[:nprev]):
+                out.append(V('fresh session at action #%d left earlier handles %s' % (i, hs[:nprev])))
+            if st.get('ret') != '[]' or st.get('rel') != '[]' or st.get('srv') != '[]':
+                out.append(V('fresh session at action #%d kept in-flight state ret=%s rel=%s srv=%s'
+                             % (i, st.get('ret'), st.get('rel'), st.get('srv'))))
+        elif a.result == 'ok reconnected':
+            succeeded = True
+            ids = lambda s, k: [x.split(':')[0] for x in list_field((s or {}).get(k, '[]'))]
+            if ids(st, 'ret') != ids(prev, 'ret') or ids(st, 'rel') != ids(prev, 'rel') or st.get('gen') != (prev or {}).get('gen'):
+                out.append(V('resumed session at action #%d changed the in-flight lists or the generation' % i))
+    return out
